@@ -3577,6 +3577,19 @@ func ruleFoldBufferCoversWorstCase(r *Report, rule string) {
 	r.Fn(fold)
 	r.Fn(filt)
 	maxFold := 0
+	// the output cursor by role: the variable that indexes an element store (`out[cursor] = ...`)
+	finfo := fold.Pkg.TypesInfo
+	cursors := map[types.Object]bool{}
+	ast.Inspect(fold.Decl.Body, func(x ast.Node) bool {
+		if as, ok := x.(*ast.AssignStmt); ok && len(as.Lhs) == 1 {
+			if ix, ok := ast.Unparen(as.Lhs[0]).(*ast.IndexExpr); ok {
+				if o := objOf(finfo, ix.Index); o != nil {
+					cursors[o] = true
+				}
+			}
+		}
+		return true
+	})
 	ast.Inspect(fold.Decl.Body, func(x ast.Node) bool {
 		cc, ok := x.(*ast.CaseClause)
 		if !ok {
@@ -3585,7 +3598,7 @@ func ruleFoldBufferCoversWorstCase(r *Report, rule string) {
 		k := 0
 		for _, st := range cc.Body {
 			ast.Inspect(st, func(y ast.Node) bool {
-				if inc, ok := y.(*ast.IncDecStmt); ok && inc.Tok == token.INC && exprStr(inc.X) == "outputPos" {
+				if inc, ok := y.(*ast.IncDecStmt); ok && inc.Tok == token.INC && cursors[objOf(finfo, inc.X)] {
 					k++
 				}
 				return true
